@@ -9,7 +9,7 @@ def variants(cls, ops_shapes=(0, 1, 2, 3)):
     """arrangement variants of a class: implicit/explicit numerals, operand shapes"""
     cname = cls.__name__
     if cname in ("Fuzzy", "Proximity", "Boost"):
-        return [{"implicit": False}, {"implicit": True}]
+        return [{"implicit": False}, {"implicit": True}, {"from_string": True}]
     if issubclass(cls, T.BaseOperation):
         return [{"nops": n} for n in ops_shapes]
     return [{}]
@@ -19,6 +19,8 @@ def label(cls, var):
     bits = [cls.__name__]
     if var.get("implicit"):
         bits.append("implicit")
+    if var.get("from_string"):
+        bits.append("parsed")
     if "nops" in var:
         bits.append({0: "ops0", 1: "ops1", 2: "ops2", 3: "ops2+run", -3: "run+ops2"}[var["nops"]])
     return ".".join(bits)
